@@ -289,6 +289,9 @@ func sumByKey(_ *api.Context, c b6.Collection[any, int]) (b6.Collection[any, int
 		if !ok {
 			break
 		}
+		if !api.CanUseAsMapKey(i.Key()) {
+			return b6.Collection[any, int]{}, fmt.Errorf("can't sum by keys of type %T", i.Key())
+		}
 		counts[i.Key()] += i.Value()
 	}
 	r := &b6.ArrayCollection[any, int]{
@@ -314,7 +317,9 @@ func countValues(_ *api.Context, collection b6.Collection[any, any]) (b6.Collect
 		if !ok {
 			break
 		}
-		// TODO: return an error if the value can't be used as a map key
+		if !api.CanUseAsMapKey(i.Value()) {
+			return b6.Collection[any, int]{}, fmt.Errorf("can't count values of type %T", i.Value())
+		}
 		counts[i.Value()]++
 	}
 	r := &b6.ArrayCollection[interface{}, int]{
@@ -340,7 +345,9 @@ func countKeys(_ *api.Context, collection b6.Collection[any, any]) (b6.Collectio
 		if !ok {
 			break
 		}
-		// TODO: return an error if the value can't be used as a map key
+		if !api.CanUseAsMapKey(i.Key()) {
+			return b6.Collection[any, int]{}, fmt.Errorf("can't count values of type %T", i.Key())
+		}
 		counts[i.Key()]++
 	}
 	r := &b6.ArrayCollection[interface{}, int]{
@@ -367,7 +374,9 @@ func countValidKeys(_ *api.Context, collection b6.Collection[any, any]) (b6.Coll
 		if !ok {
 			break
 		}
-		// TODO: return an error if the value can't be used as a map key
+		if !api.CanUseAsMapKey(i.Key()) {
+			return b6.Collection[any, int]{}, fmt.Errorf("can't count values of type %T", i.Key())
+		}
 		if id, ok := i.Value().(b6.FeatureID); ok {
 			if id.IsValid() {
 				counts[i.Key()]++
